@@ -1,8 +1,8 @@
 package main
 
 import (
-	"go/token"
 	"fmt"
+	"go/token"
 	"go/types"
 	"strings"
 
@@ -409,7 +409,10 @@ func (g *gmectx) errorInfeasible(r *ssa.Return, firstEffect ssa.Instruction, isE
 			list = isVal(callee.Params[1])
 		} else {
 			b := callee.Params[0]
-			list = func(v ssa.Value) bool { f, base, ok := loadedField(v); return ok && f == "MultiEndpointOptions.Endpoints" && base == ssa.Value(b) }
+			list = func(v ssa.Value) bool {
+				f, base, ok := loadedField(v)
+				return ok && f == "MultiEndpointOptions.Endpoints" && base == ssa.Value(b)
+			}
 		}
 		cs := newCondSpace(callee, recOf(lenZeroAtom("empty", func(v ssa.Value) bool {
 			call, ok := stripConv(v).(*ssa.Call)
